@@ -161,6 +161,9 @@ pub struct WHistory {
     /// that never panic themselves).
     #[serde(default)]
     pub unwind_drop: bool,
+    /// Construct with `from_boxed_dyn_write` instead of `from_write`.
+    #[serde(default)]
+    pub boxed: bool,
 }
 
 /// Payload of the unrelated panic used for `unwind_drop`.
@@ -273,7 +276,11 @@ pub fn run_whistory(h: &WHistory, which: WOracles, prop: &str) -> Result<WStats,
     }
 
     {
-        let mut w = DeferredWriter::from_write(sink);
+        let mut w = if h.boxed {
+            DeferredWriter::from_boxed_dyn_write(Box::new(sink))
+        } else {
+            DeferredWriter::from_write(sink)
+        };
         for (i, op) in h.ops.iter().enumerate() {
             if panicked {
                 st.ops_after_panic += 1;
@@ -648,6 +655,7 @@ pub fn classify(h: &WHistory, st: &WStats, obs: &mut Obs) {
     obs.class_if(st.sink_panics > 0, "sink-panicked");
     obs.class_if(st.absurd_ptr > 0, "absurd-ptr-request");
     obs.class_if(st.unwind_drops > 0, "dropped-while-unwinding");
+    obs.class(if h.boxed { "ctor/from_boxed_dyn_write" } else { "ctor/from_write" });
     obs.class_if(st.huge_slices > 0, "slice>=1MiB");
     obs.class_if(st.short_write_results > 0, "write-took-a-prefix");
     let short = h.sink.tail_accept < 100_000
@@ -767,11 +775,13 @@ pub fn whistory_strategy(max_ops: usize, hostile: bool) -> impl Strategy<Value =
         sink_strategy(hostile),
         any::<u64>(),
         proptest::bool::weighted(0.15),
+        proptest::bool::weighted(0.3),
     )
-        .prop_map(|(ops, sink, content_seed, unwind_drop)| WHistory {
+        .prop_map(|(ops, sink, content_seed, unwind_drop, boxed)| WHistory {
             ops,
             sink,
             content_seed,
             unwind_drop,
+            boxed,
         })
 }
